@@ -323,6 +323,9 @@ func (g *G) PacketOut() (util.Message, *spec.Node) {
 	if dl > g.Budget/2 {
 		dl = g.Budget / 2
 	}
+	if dl < 0 {
+		dl = 0 // carried by a bundle-add that has used the budget up
+	}
 	g.Budget -= dl
 	as, ns := g.ActionList("nactions", 40)
 	for i := range as {
